@@ -53,6 +53,7 @@ func ListenPacket(network, address string) (PacketConn, error) {
 }
 
 func (h *Host) listenUDP(ip IP, port int) (*UDPConn, error) {
+	envPoint()
 	if port == 0 {
 		for {
 			port = h.nextEph
@@ -196,6 +197,7 @@ func (c *UDPConn) Write(b []byte) (int, error) {
 }
 
 func (c *UDPConn) Close() error {
+	envPoint()
 	if c.closed {
 		return &net.OpError{Op: "close", Net: "udp", Addr: c.local, Err: net.ErrClosed}
 	}
